@@ -239,6 +239,8 @@ theorem wf_remove' (s : Store) (root : Ino) (v : View) (p : Bytes) (hwf : WF s r
     split
     · exact hwf
     split
+    · exact hwf
+    split
     · rename_i m ch hg
       split
       · exact hwf
@@ -463,13 +465,13 @@ theorem wf_rename_att (s : Store) (root : Ino) (v : View) (o n : Bytes) (hwf : W
   generalize searchNode s v o .lstat = ro at *
   generalize searchNode s v n .lstat = rn at *
   clear hatt hs
-  split
-  · exact hwf
-  rename_i hoe
+  by_cases hoe : (ro.err != SErr.exists) = true
+  · rw [if_pos hoe]; exact hwf
+  rw [if_neg hoe]
   have hoe' : ro.err = .exists := by simpa using hoe
-  split
-  · exact hwf
-  rename_i hnerr
+  by_cases hnerr : (rn.err != SErr.exists && rn.err != SErr.noent) = true
+  · rw [if_pos hnerr]; exact hwf
+  rw [if_neg hnerr]
   have hnerr' : rn.err = .exists ∨ rn.err = .noent := by
     revert hnerr; cases rn.err <;> simp
   split
@@ -483,6 +485,14 @@ theorem wf_rename_att (s : Store) (root : Ino) (v : View) (o n : Bytes) (hwf : W
   split
   · exact hwf
   rename_i oc hoc
+  split
+  · exact hwf
+  have hite : ∀ (c : Prop) [Decidable c] (x : Store × Out), WF x.1 root →
+      WF (if c then (s, Out.err Err.EPERM) else x).1 root := by
+    intro c _ x hx; split
+    · exact hwf
+    · exact hx
+  apply hite
   split
   · -- a directory is moved
     rename_i m ch hg
@@ -829,6 +839,8 @@ theorem wf_removeAll' (s : Store) (root : Ino) (v : View) (p : Bytes) (hwf : WF 
     | some e => exact hg.wf
     | none =>
       dsimp only
+      split
+      · exact hg.wf
       split
       · exact hg.wf
       · have he1 : Edge s1 r.parent (partOf r.pi) c := by
